@@ -112,6 +112,32 @@ theorem refreshDkgShares_ok_consistent (S : Suite F E) (sp : Round2Secret F E)
     SMap.get? pkp.vshares sp.id = some kp.vshare :=
   Frost.refreshDkgShares_ok_consistent S sp r1 r2 oldPkp oldKp kp pkp h hk1 hself hlen hown hold
 
+/-- **The honest distributed refresh succeeds and re-links every package** (see
+    `Frost.refreshDkgShares_honest`): with `r_ℓ(x) = x·(rc ℓ)(x)` the zero-constant polynomial of
+    participant `ℓ` and `R = r_me + Σ_ℓ r_ℓ`, `refresh_dkg_shares` returns the signing share
+    `sold me + R(me)`, the verifying share `(sold i + R(i))•G` for EVERY participant `i`, the old
+    group key and the same threshold.  These are the hypotheses of `refreshed_can_sign` (with the
+    single refresh polynomial `R`), so any `t` refreshed participants sign; and
+    `refresh_preserves_sharing` says the secret is the old one. -/
+theorem refreshDkgShares_honest (S : Suite F E) (me : F) (rc : F → List F) (sold : F → F)
+    (t n : Nat) (ht : 0 < t) (hrc : ∀ l, (rc l).length + 1 = t)
+    (r1 : List (F × Round1Package F E)) (h0 : n ≠ 0) (hlen : r1.length = n - 1)
+    (hown : me ∉ SMap.keys r1) (hnd : (SMap.keys r1).Nodup)
+    (hcm : ∀ ip ∈ r1, ip.2.commitment = (rc ip.1).map fun c => c • S.G)
+    (oldPkp : PublicKeyPackage F E) (oldKp : KeyPackage F E)
+    (hmin : oldKp.minSigners = t) (hshare : oldKp.share = sold me)
+    (hold : ∀ id ∈ me :: SMap.keys r1, SMap.get? oldPkp.vshares id = some (sold id • S.G)) :
+    let Rtot := fun x => hornerR (0 :: rc me) x +
+      ((SMap.keys r1).map fun l => hornerR (0 :: rc l) x).sum
+    ∃ kp pkp,
+      refreshDkgShares S ⟨me, (rc me).map fun c => c • S.G, hornerR (0 :: rc me) me, t, n⟩ r1
+        (r1.map fun ip => (ip.1, hornerR (0 :: rc ip.1) me)) oldPkp oldKp = .ok (kp, pkp) ∧
+      kp = ⟨me, sold me + Rtot me, (sold me + Rtot me) • S.G, oldPkp.vk, t⟩ ∧
+      pkp.vk = oldPkp.vk ∧ pkp.minSigners = some t ∧
+      ∀ id ∈ me :: SMap.keys r1, SMap.get? pkp.vshares id = some ((sold id + Rtot id) • S.G) :=
+  Frost.refreshDkgShares_honest S me rc sold t n ht hrc r1 h0 hlen hown hnd hcm oldPkp oldKp
+    hmin hshare hold
+
 /-- **Any sequence of refreshes preserves the sharing**: after refreshes with zero-constant
     polynomials `r₁, r₂, …` (each with fewer than `|S|` non-constant coefficients), any
     signer set `S` of distinct identifiers with `|f| ≤ |S|` still interpolates to the
